@@ -13,7 +13,10 @@ TECHNIQUE = ("Coq proofs that the model of Bytes/GoValue produces and accepts ex
 RULE = ("same value generators as C04 (see evidence/C04.json rule). fn 1: for (type, length, value) the implementation's Bytes output is compared with the Coq "
         "reference layout_enc, the reference bytes (computed by the harness' own codec with its own civil-date arithmetic, math/big, encoding/binary, and checked "
         "against layout_enc on every case) are decoded by the implementation's GoValue and compared with the value (exact, or to the tick with re-encoding to the same "
-        "bytes); fn 4: asetime.TimeToMicroseconds / DurationFromDateTime / DurationFromTime / MicrosecondsToTime / MillisecondToFractionalSecond / "
+        "bytes); on every fn 1 case DataType.Bytes is called TWICE on the SAME Go value object (*Decimal, []byte, string, time.Time, integers, ...) and the "
+        "object is rendered before and after: the second outcome must equal the first and the object must be unchanged (third output component (1 1), "
+        "compared exactly with the model, which is a function of an immutable value, and demanded by the spec predicate on every case); "
+        "fn 4: asetime.TimeToMicroseconds / DurationFromDateTime / DurationFromTime / MicrosecondsToTime / MillisecondToFractionalSecond / "
         "FractionalSecondToMillisecond on the dense days, month boundaries, random microseconds, 2000 random microsecond counts of years 0..9999 and boundary "
         "vectors, compared with the reference calendar (ref_index = number of next_day steps). Documented vectors (1753-01-01 = -53690, 9999-12-31 = 2958463, "
         "2079-06-06 = 65535, money max, bigdatetime 0001-01-01 = 31622400000000, 'abc') are both cases and Coq Examples. "
@@ -31,7 +34,8 @@ LEVEL_TEXT = ("Machine-checked theorems on the C04 domains: enc_value = layout_e
               "integers, floats, money, numeric (every integer), unitext (UTF-16LE, all scalar values), char/binary, DATE (every day of years 1..9999), DATETIME, "
               "SHORTDATE, TIME, BIGDATETIMEN, BIGTIMEN; C05_jdn_is_reference (Julian-day expression = reference day number, years 1..9999), "
               "C05_time_to_microseconds, C05_microseconds_to_time (inverse and agreement with the reference), C05_fliegel_all_years (every year >= 1), "
-              "C05_ref_index_is_walk (the reference day number is the number of next_day steps), C05_le_word_byte, C05_be_mag_spec; summary C05_model_meets_layout: the model satisfies the executable layout specification on the whole domain; "
+              "C05_ref_index_is_walk (the reference day number is the number of next_day steps), C05_le_word_byte, C05_be_mag_spec; summary C05_model_meets_layout: the model satisfies the executable layout specification on the whole domain; C05_model_pure (the model's fn 1 output carries the "
+              "observation 'second encoding = first, value object unchanged' that the specification demands; the implementation is held to it by the exact comparison); "
               "Examples with the documented vectors.")
 LEVEL_NOTE = ("Trusted: Coq kernel, the reference layouts/calendar (specification), the hand-written model (validated with 0 mismatches), harness, extraction, driver. No axioms.")
 def nontrivial(c):
